@@ -305,15 +305,30 @@ def nt_scoped(seq, nscopes, shape="chain"):
 
 
 # ----------------------------------------------------------------------------------------------
+def _guard(kind, fn, *args):
+    """An exception the model does not predict (anything but the compared IndexError/KeyError
+    outcomes, which are caught where they are expected) is a disagreement with the model."""
+    try:
+        return fn(*args)
+    except Exception as e:
+        import traceback
+        fr = [f for f in traceback.extract_tb(e.__traceback__) if "/xdsl/" in f.filename]
+        site = (fr[-1].filename.split("/xdsl/", 1)[1] + ":" + fr[-1].name) if fr else "harness"
+        if not fr:
+            raise
+        return ({"check": kind, "op": "unexpected_exception", "exc": type(e).__name__, "site": site},
+                f"{type(e).__name__}: {e} raised inside {site}")
+
+
 def run_recipe(h, r):
     kind = r["kind"]
     seq = r["seq"]
     if kind == "worklist":
-        res, nt = run_worklist(seq), nt_worklist(seq)
+        res, nt = _guard(kind, run_worklist, seq), nt_worklist(seq)
     elif kind in ("ids", "ds"):
-        res, nt = run_ds(seq, r["n0"], kind == "ds"), nt_ds(seq, r["n0"])
+        res, nt = _guard(kind, run_ds, seq, r["n0"], kind == "ds"), nt_ds(seq, r["n0"])
     elif kind == "scoped":
-        res = run_scoped(seq, r["nscopes"], r.get("shape", "chain"))
+        res = _guard(kind, run_scoped, seq, r["nscopes"], r.get("shape", "chain"))
         nt = nt_scoped(seq, r["nscopes"])
     else:
         raise AssertionError(kind)
